@@ -59,6 +59,10 @@ def main():
     out = []
     for c in cases:
         try:
+            if c.get("kind") == "line":
+                from harness.impl.c06line import run_line_case
+                out.append(run_line_case(c))
+                continue
             out.append(run_case(c, fake, mod))
         except Exception as e:  # noqa: BLE001
             import traceback
